@@ -74,7 +74,13 @@ def same(a, b, path="obj", seen=None, strict_order=True):
     if isinstance(a, np.generic):
         if a.dtype != b.dtype:
             return f"{path}: dtype {a.dtype} vs {b.dtype}"
-        return None if a.tobytes() == b.tobytes() else f"{path}: {a!r} vs {b!r}"
+        if a.tobytes() == b.tobytes():
+            return None
+        if a.dtype.kind in "fc":
+            # extended-precision scalars carry padding bytes that are not part of the value
+            if (a == b or (a != a and b != b)) and np.signbit(a.real) == np.signbit(b.real):
+                return None
+        return f"{path}: {a!r} vs {b!r}"
     if isinstance(a, np.dtype):
         return None if a == b and a.str == b.str else f"{path}: dtype {a!r} vs {b!r}"
     if isinstance(a, (list, tuple)):
